@@ -444,3 +444,35 @@ def feature_matrix():
                     parts.append('"%s %s %d"%s' % (msg, shape, n, ", x" if "{}" in msg else ""))
                     lines.append("    %sinfo!(%s);" % ("log::" if qualified else "", " ".join(parts)))
     return "fn matrix() {\n" + "\n".join(lines) + "\n}\n"
+
+
+def referenced_matrix(structured):
+    """Deterministic: statements that ALREADY carry a reference, in every place a reference can stand, with
+    plain statements lacking one in between.  Returns (bytes, sorted insertion offsets the property text demands):
+    the referenced statements must receive nothing."""
+    if structured:
+        refd = ["ref = 7", "ref = 7, k = 1", "k = 1, ref = 7", "user, ref = 7", "user, host, ref = 7",
+                "user, host, port, ref = 7", "user:?, ref = 7", "k = 1, user, ref = 7, z = 2", "ref:? = 7",
+                "ref:% = 7, user", 'name = "a;b", ref = 7', "ref = 7 /* c */, k = 1", "user,\n        ref = 7"]
+        stmts = []
+        for i, kv in enumerate(refd):
+            for target in ("", 'target: "net", '):
+                stmts.append('info!(%s%s; "referenced %d");' % (target, kv, i))
+    else:
+        stmts = ['info!("[ref: 7] a");', 'warn!(target: "net", "[ref: 8] b {}", x);', 'info!(user, k = 1; "[ref: 9] c");',
+                 'log::error!(target: "t", user:?; "[ref: 4294967295] d");', 'info!(\n    "[ref: 10] e"\n);',
+                 'info!("[ref: 11]");', 'info!("[ref: 12]{}", x);']
+    out = Out()
+    want = []
+    out.add("fn referenced() {\n")
+    for i, st in enumerate(stmts):
+        out.add("    " + st + "\n")
+        out.add("    info!(")
+        if structured:
+            want.append(out.off)
+        out.add('"')
+        if not structured:
+            want.append(out.off)
+        out.add('need %d");\n' % i)
+    out.add("}\n")
+    return out.text().encode("utf-8"), sorted(want)
